@@ -5,11 +5,21 @@
 
   The constraint-generation theorems of Props/C20.lean (`constraints_pairwise`, `constraints_match_hints`,
   `constraints_match_hints_all`, `checkPos_iff_graphs`) are stated over `Resolved` -- nodes with transformed pin
-  coordinates -- and therefore hold verbatim for the new element kinds.  What is new is HOW an element is resolved; this
-  file states what that resolution means.  Every statement over the table is re-decided against the table regenerated
-  from /repo's source on every run (complete finite table).
+  coordinates -- and therefore hold verbatim for the new element kinds.  What is new is HOW an element is resolved.  That
+  resolver is a HAND MODEL of `Cpt.size / scale / angle / mirror / invert / tf / required_pins / pins`, of
+  `Schematic._cpt_add / draw` and of `process_implicit_nodes`; it is tied to /repo on every run by
+    (a) tx_layout: the class tables, the `pins` property of every class (matched against the rules the model implements),
+        `Cpt.R`, the implicit-key tuples, and a FINGERPRINT of the source text of every hand-modelled function (a change
+        of any of them is reported as a broken tie), and
+    (b) the exact per-element comparison of class / nodes / angle / size / stretch / pin coordinates and of the ordered
+        constraint graphs with the real Lcapy on every generated netlist.
+  Remarks about the resolver model itself (`size=` wins over `<direction>=value`, `scale` only moves rigid pins,
+  `draw(**kwargs)` deletes same-named options, transposition = reflection, P-type transistors reverse `mirror`, …) are
+  model lemmas in Proofs/LayoutShapes.lean, NOT property theorems.  This file keeps what is decided over the regenerated
+  table and the agreement of the code's rotation with the meaning of the hints.
 -/
 import Lcapy.Proofs.LayoutBase
+import Lcapy.Proofs.LayoutShapes
 import Mathlib.Tactic.Ring
 
 namespace Lcapy.C20
@@ -31,17 +41,6 @@ theorem pin_variants_present :
         ["normal_pins", "mirror_pins", "invert_pins", "mirror_invert_pins"].all (fun v => (variant r v).isSome)
       else false) = true := by decide +kernel
 
-/-- the P-type devices are the ones listed in `Transistor.pins` (read from the source): they are drawn with `mirror`
-    reversed -- so a P-type transistor WITH `mirror` gets the table an N-type one gets without -/
-theorem ptype_mirror_reversed (row : ClassRow) (e : Elt) (hr : row.pinsRule = "transistor")
-    (hp : Gen.transistorPClasses.contains e.cls = true) (hk : e.kind = none) (hm : e.mirror = true)
-    (hi : e.invert = false) :
-    pinsOf row e 1 1 = variant row "normal_pins" := by
-  have hp' : e.cls ∈ Gen.transistorPClasses := by simpa using hp
-  unfold pinsOf
-  simp [hr, hp', hk, hm, hi]
-example : Gen.transistorPClasses.contains "Qpnp" = true := by decide +kernel
-
 /-- BJT and MOSFET: the `mirror` table is the `normal` table reflected about the axis `y = 1/2` (checked over the
     regenerated table).  (For JFET the gate pin is at 0.335 in `normal_pins` but 0.645 = 1 − 0.355 in `mirror_pins`,
     and MOSFET `invert_pins2` has the gate at 0.335 against 0.355 in `normal_pins2`: the tables of the source are not
@@ -60,15 +59,7 @@ example : (match lookupRow "JFET" with
       | _, _ => true)
     | none => true) = false := by decide +kernel
 
-/-! ## 2. mirror / invert on transposable shapes (`Cpt.tf`: `do_transpose`) -/
-
-/-- `mirror` (or `flipud`) on a `do_transpose` class is a reflection of the pin coordinates in the x axis BEFORE the
-    rotation, `invert` (or `fliplr`) in the y axis: resolving with the flag set equals resolving the reflected pin -/
-theorem transpose_is_reflection (rot : Rat → Rat × Rat → Option (Rat × Rat)) (p : PreResolved) (pin : PinRow) :
-    pinCoord rot { p with flipX := true, flipY := true } pin =
-      pinCoord rot { p with flipX := false, flipY := false } { pin with x := -pin.x, y := -pin.y } := by
-  unfold pinCoord pinScale
-  simp
+/-! ## 2. mirror / invert: table choice versus transposition -/
 
 /-- a class whose pin TABLE is chosen by `mirror` / `invert` is never also transposed by `tf` (no double reflection):
     over the regenerated table, `do_transpose` only occurs with a literal table or with the `mirrorinputs` rule (chips) -/
@@ -103,52 +94,7 @@ theorem resolve_all_agreesP (n : Netlist) (x : List String × List Resolved)
     (h : resolveAll (rotCodeP n.rots) n = .ok x) : resolveAll (rotMeanP n.rots) n = .ok x :=
   resolveAll_mono (rotCodeP_rotMeanP n.rots) n x h
 
-/-! ## 4. sizes: `size=`, `<direction>=`, default width, `shape_scale`; `scale=`; `aspect=` -/
-
-/-- `size=` takes precedence over `<direction>=value` -/
-theorem size_option_wins (e : Elt) (row : ClassRow) (v : String) (x : Rat) (hs : e.opts.has "size" = true)
-    (hv : e.opts.get? "size" = some v) (hne : v ≠ "") (hx : parseDec v = some x) :
-    e.size row = some (x * row.shapeScale) := by
-  unfold Elt.size
-  simp only [hs, if_true, hv]
-  simp [hx]
-
-/-- without any size the class' `default_width` (times `shape_scale`) is used -/
-theorem size_default (e : Elt) (row : ClassRow) (hs : e.opts.has "size" = false) (hr : e.right = false)
-    (hd : e.down = false) (hl : e.left = false) (hu : e.up = false) :
-    e.size row = some (row.defaultWidth * row.shapeScale) := by
-  unfold Elt.size
-  simp [hs, hr, hd, hl, hu]
-
-/-- `scale=` only moves the pins that are not marked scalable (`pinpos` ending in `x`) of a `can_scale` class -/
-theorem scale_only_rigid_pins (p : PreResolved) (pin : PinRow) (h : p.row.canScale = false ∨ pin.scalable = true) :
-    pinScale p pin = .ok 1 := by
-  unfold pinScale
-  rcases h with h | h
-  · simp [h]
-  · by_cases hc : p.row.canScale = true <;> simp [hc, h]
-
-/-- `Schematic.draw(**kwargs)`: a keyword argument removes the option of the same name from every component, so the
-    layout of `draw(scale=…)` is the layout of the netlist with every `scale=` deleted (and no keyword arguments) -/
-theorem draw_kwargs_override (rot : Rat → Rat × Rat → Option (Rat × Rat)) (n : Netlist) :
-    resolveAll rot n =
-      (match expandAll n.elts with
-       | .error m => .error m
-       | .ok elts0 =>
-         match splitImplicit (elts0.map fun e =>
-             { e with opts := e.opts.filter (fun kv => !(n.drawKeys.contains kv.1) || kv.1 == "style") }) with
-         | .error m => .error m
-         | .ok (elts, newNodes) =>
-           match mapE (resolveWith rot n.spacing (schNodes elts0 ++ newNodes)) elts with
-           | .error m => .error m
-           | .ok rs => .ok (schNodes elts0 ++ newNodes, rs)) := rfl
-
-/-! ## 5. implicit nodes -/
-
-/-- a component without an implicit / connection key is left alone -/
-theorem split_noop (st : SplitSt) (e : Elt) (h : implicitKey e = .ok none) : (splitOne st e).map (·.2) = .ok e := by
-  unfold splitOne
-  simp [h, Except.map]
+/-! ## 4. implicit nodes (what the model of `process_implicit_nodes` does on two directed inputs) -/
 
 /-- `ground` on the only connection of a node does not create a new node; on a shared node it detaches the component:
     two ground wires on node 0 -/
